@@ -54,6 +54,7 @@ pub fn hashmap_retain_key<F: Fn(i32) -> bool>(m: &mut HashMap<i32, u64>, f: F)
 
 SPEC = r'''
 // ---------- spec layer ----------
+pub const CLOCK_MAX: u64 = 0x4000_0000_0000_0000;   // machine-arithmetic bound on every clock value (2^62 ms)
 pub open spec fn win_ok(w: i32) -> bool { 1000 <= w <= 60000 }
 
 pub open spec fn spec_ack_window(w: i32, in_flight: i32) -> i32 {
@@ -300,7 +301,7 @@ def RESET_CORE_ENSURES_PUBLIC(who):
         C('C13.acct.%s.clears_stall_state' % who, '''final(self).last_ack_or_rtt_sample_ms == 0 && !final(self).stall_gated && final(self).stall_latched_since_ms == 0
             && final(self).stall_recovery_since_ms == 0 && !final(self).silence_pulled'''),
         C('C01.acct.%s.queue_dropped' % who, 'final(self).batch_sender.queue.len() == 0 && final(self).batch_sender.wf()'),
-        'final(self).wf()',
+        'final(self).wf()', 'final(self).stall_probe_counter == 0',
     ]
 
 
@@ -470,6 +471,7 @@ CNT_OK = '(#[trigger] %s[i]).stall_gate_events < 0x7fff_ffff_ffff_ffff && %s[i].
 GATE_REQUIRES = ['forall|i: int| 0 <= i < old(conns).len() ==> ' + CNT_OK % ('old(conns)', 'old(conns)', 'old(conns)'), 'current_time_ms > 0']
 GATE_ENSURES = [
     'final(conns).len() == old(conns).len()',
+    'forall|i: int| 0 <= i < old(conns).len() ==> (#[trigger] final(conns)[i]).latch_wf()',
     C('C12.select.apply_stall_gate.accounting_untouched', '''forall|i: int| 0 <= i < old(conns).len() ==> #[trigger] old(conns)[i].same_acct(&final(conns)[i])
             && final(conns)[i].conn_timeout_ms == config.conn_timeout_ms && final(conns)[i].quality_cache == old(conns)[i].quality_cache'''),
     C('C12.select.apply_stall_gate.guard_off_clears_every_flag_and_latch', '''!config.stall_deselect ==> forall|i: int| 0 <= i < old(conns).len() ==> !(#[trigger] final(conns)[i]).stall_gated
@@ -488,20 +490,23 @@ _G2 = ['c_nx <= conns.len()', 'conns.len() == old(conns).len()',
 _G3 = ['c_nx <= conns.len()', 'conns.len() == old(conns).len()', 'current_time_ms > 0',
        'forall|i: int| 0 <= i < conns.len() ==> ' + CNT_OK % ('old(conns)', 'old(conns)', 'old(conns)'),
        C('C12.select.apply_stall_gate.accounting_untouched', 'forall|j: int| 0 <= j < c_nx ==> #[trigger] old(conns)[j].same_acct(&conns[j]) && conns[j].conn_timeout_ms == config.conn_timeout_ms && conns[j].quality_cache == old(conns)[j].quality_cache'),
+       'forall|j: int| 0 <= j < c_nx ==> (#[trigger] conns[j]).latch_wf()',
        'forall|j: int| c_nx <= j < conns.len() ==> (#[trigger] conns[j]).same_except_timeout(&old(conns)[j]) && conns[j].conn_timeout_ms == config.conn_timeout_ms']
 _G4 = ['c_nx <= conns.len()', 'conns.len() == old(conns).len()', 'conns.len() == pre4.len()',
        'any_healthy == (exists|j: int| 0 <= j < pre4.len() && #[trigger] pre4[j].healthy(current_time_ms))',
        'forall|j: int| 0 <= j < conns.len() ==> #[trigger] old(conns)[j].same_acct(&pre4[j]) && pre4[j].conn_timeout_ms == config.conn_timeout_ms && pre4[j].quality_cache == old(conns)[j].quality_cache',
        C('C03+C04.select.apply_stall_gate.gated_only_while_a_healthy_link_exists', '''forall|j: int| 0 <= j < c_nx ==> (#[trigger] conns[j]).same_except_gated(&pre4[j])
                 && conns[j].stall_gated == (any_healthy && (pre4[j].spec_latched() || pre4[j].silence_pulled))'''),
-       'forall|j: int| c_nx <= j < conns.len() ==> #[trigger] conns[j] == pre4[j]']
+       'forall|j: int| c_nx <= j < conns.len() ==> #[trigger] conns[j] == pre4[j]',
+       'forall|j: int| 0 <= j < pre4.len() ==> (#[trigger] pre4[j]).latch_wf()']
 GATE_INVS = [_G1, _G2, _G3, _G4]
 GATE_SPLICES = [
     ('let any_healthy = any_healthy_helper(conns, current_time_ms);', '''let ghost pre4 = conns@;
     proof { assert forall|j: int| 0 <= j < conns.len() implies #[trigger] old(conns)[j].same_acct(&pre4[j]) && pre4[j].conn_timeout_ms == config.conn_timeout_ms && pre4[j].quality_cache == old(conns)[j].quality_cache by {
         assert(old(conns)[j].same_acct(&conns[j])); } }''', 'after'),
     ('return;', '''proof { assert forall|i: int| 0 <= i < conns.len() implies #[trigger] old(conns)[i].same_acct(&conns[i]) && conns[i].conn_timeout_ms == config.conn_timeout_ms && conns[i].quality_cache == old(conns)[i].quality_cache by {
-            assert(conns[i].same_except_stall_clear(&old(conns)[i])); } }''', 'before'),
+            assert(conns[i].same_except_stall_clear(&old(conns)[i])); }
+          assert forall|i: int| 0 <= i < conns.len() implies (#[trigger] conns[i]).latch_wf() by { assert(conns[i].stall_latched_since_ms == 0 && conns[i].stall_recovery_since_ms == 0); } }''', 'before'),
     ('c.update_silence_pull(current_time_ms, min_in_flight, stale_ceiling_ms);', '''let ghost c0 = *c;
         proof { assert(c0.same_except_timeout(&old(conns)[c_ix as int])); assert(old(conns)[c_ix as int].stall_gate_events < 0x7fff_ffff_ffff_ffff); }''', 'before'),
     ('c.update_stall_latch(current_time_ms, min_in_flight, stale_ceiling_ms);', 'let ghost c1 = *c;', 'before'),
@@ -515,6 +520,9 @@ GATE_SPLICES = [
             assert(conns[c_ix as int] == cfin);
             assert forall|j: int| 0 <= j < c_nx implies #[trigger] old(conns)[j].same_acct(&conns[j]) && conns[j].conn_timeout_ms == config.conn_timeout_ms && conns[j].quality_cache == old(conns)[j].quality_cache by {
                 if j != c_ix { assert(conns[j] == before3[j]); assert(old(conns)[j].same_acct(&before3[j])); }
+            }
+            assert forall|j: int| 0 <= j < c_nx implies (#[trigger] conns[j]).latch_wf() by {
+                if j != c_ix { assert(conns[j] == before3[j]); }
             }
             assert forall|j: int| c_nx <= j < conns.len() implies (#[trigger] conns[j]).same_except_timeout(&old(conns)[j]) && conns[j].conn_timeout_ms == config.conn_timeout_ms by {
                 assert(conns[j] == before3[j]); assert(before3[j].same_except_timeout(&old(conns)[j]));
@@ -532,6 +540,9 @@ GATE_SPLICES = [
             && conns[i].conn_timeout_ms == config.conn_timeout_ms && conns[i].quality_cache == old(conns)[i].quality_cache by {
             assert(old(conns)[i].same_acct(&pre4[i]));
         }
+        assert forall|i: int| 0 <= i < conns.len() implies (#[trigger] conns[i]).latch_wf() by {
+            assert(pre4[i].latch_wf()); assert(conns[i].same_except_gated(&pre4[i]));
+        }
     }''', 'before'),
 ]
 
@@ -539,6 +550,7 @@ IDX_REQUIRES = ['forall|i: int| 0 <= i < old(conns).len() ==> ' + CNT_OK % ('old
                 'current_time_ms > 0']
 IDX_ENSURES = [
     'final(conns).len() == old(conns).len()',
+    'forall|i: int| 0 <= i < old(conns).len() ==> (#[trigger] final(conns)[i]).latch_wf()',
     C('C12.select.select_connection_idx.decision_never_changes_liveness_or_accounting', 'forall|i: int| 0 <= i < old(conns).len() ==> #[trigger] old(conns)[i].same_acct(&final(conns)[i])'),
     C('C04.select.select_connection_idx.result_is_eligible', 'r is Some ==> r.unwrap() < final(conns).len() && final(conns)[r.unwrap() as int].eligible(current_time_ms)'),
     C('C12.select.select_connection_idx.guard_off_clears_every_flag_and_latch', '''!config.stall_deselect ==> forall|i: int| 0 <= i < old(conns).len() ==> !(#[trigger] final(conns)[i]).stall_gated
@@ -556,11 +568,18 @@ IDX_SPLICES = [
             assert(old(conns)[i].same_acct(&gated[i]));
             assert(conns[i] == gated[i] || conns[i].same_except_qc(&gated[i]));
         }
+        assert forall|i: int| 0 <= i < conns.len() implies (#[trigger] conns[i]).latch_wf() by {
+            assert(gated[i].latch_wf());
+            assert(conns[i] == gated[i] || conns[i].same_except_qc(&gated[i]));
+        }
     }
     res''', 'before'),
 ]
 
 BESTQ_ENSURES = [
-    'r is Some ==> r.unwrap() < conns.len() && conns[r.unwrap() as int].connected && conns[r.unwrap() as int].spec_sched()',
+    C('C04.select.select_best_quality_idx.never_a_registering_disconnected_or_stall_gated_link',
+      'r is Some ==> r.unwrap() < conns.len() && conns[r.unwrap() as int].connected && conns[r.unwrap() as int].spec_sched() && !conns[r.unwrap() as int].stall_gated'),
 ]
-BESTQ_INV = ['i_nx <= conns.len()', 'best_idx is Some ==> best_idx.unwrap() < i_nx && conns[best_idx.unwrap() as int].connected && conns[best_idx.unwrap() as int].spec_sched()']
+BESTQ_INV = ['i_nx <= conns.len()',
+             C('C04.select.select_best_quality_idx.never_a_registering_disconnected_or_stall_gated_link',
+               'best_idx is Some ==> best_idx.unwrap() < i_nx && conns[best_idx.unwrap() as int].connected && conns[best_idx.unwrap() as int].spec_sched() && !conns[best_idx.unwrap() as int].stall_gated')]
